@@ -83,6 +83,18 @@ Theorem C17_textmode_crlf_refuted :
 Proof. exact textmode_crlf_refuted. Qed.
 Print Assumptions C17_textmode_crlf_refuted.
 
+(* REPAIRED IO layer (bytes decoded incrementally, a trailing CR held back until its successor is read): the
+   source is chunk-independent at the level of the bytes written, for all raw chunkings. *)
+Theorem C17_textmode_fixed_chunk_independent : forall d raws, d <> [] ->
+  run_chunks_textmode_fixed d raws = poll d [] (nl_translate (strip_cr (concat raws))).
+Proof. exact textmode_fixed_chunk_independent. Qed.
+Print Assumptions C17_textmode_fixed_chunk_independent.
+
+Theorem C17_textmode_fixed_chunk_independent2 : forall d raws raws', d <> [] -> concat raws = concat raws' ->
+  run_chunks_textmode_fixed d raws = run_chunks_textmode_fixed d raws'.
+Proof. exact textmode_fixed_chunk_independent2. Qed.
+Print Assumptions C17_textmode_fixed_chunk_independent2.
+
 (* ---------------- filenames ----------------
    For ANY sequence of directory snapshots (growing, shrinking, names re-appearing, any listing order):
    one output list per poll; each strictly sorted (code-point order), hence duplicate-free; over the whole run
